@@ -249,7 +249,14 @@ def run_check(args):
                                     for k, v in r['digests'].items()})
                     if len(samples) < 6:
                         samples.extend(r['samples'][:1])
-                    stop = time.time() > deadline or len(violations) >= 20 \
+                    relevant = sum(
+                        1 for _, _, _, rs in violations
+                        if prop in rs['violation']['props'])
+                    if len(violations) > 400:
+                        violations[:] = [
+                            x for x in violations
+                            if prop in x[3]['violation']['props']][:100]
+                    stop = time.time() > deadline or relevant >= 20 \
                         or (max_cases and next_seed[0] - base >= max_cases)
                     if not stop:
                         submit()
